@@ -44,6 +44,22 @@ def check_projectors(run, ex, jnp, rng, tier):
                 ppl = np.asarray(ex.ifft(P(P(ex.fft(jnp.asarray(u)))), num_spatial_dims=D, num_points=N))
                 if maxabs(pp - pm) > 1e-11 * (1 + maxabs(u)) or maxabs(ppl - pl) > 1e-11 * (1 + maxabs(u)):
                     run.violation(dict(key, what="not idempotent / solenoidal field changed"), {"err": max(maxabs(pp - pm), maxabs(ppl - pl))})
+    # indexing="xy": make_incompressible agrees with the Leray projector built from the xy derivative operator and removes the divergence
+    # measured with that operator (component d of the field belongs to coordinate d of make_grid(indexing="xy"))
+    for D, N in ((2, 8), (2, 9), (3, 6), (3, 7)):
+        L = 2.3
+        dop = ex.spectral.build_derivative_operator(D, L, N, indexing="xy")
+        P = ex.nonlin_fun.Leray(D, N, derivative_operator=dop)
+        u = zoo.nyquist_free(ex, jnp, zoo.white_noise(rng, D, D, N, amp=1.0))
+        run.case(("projector-xy", D, N))
+        pm = np.asarray(ex.spectral.make_incompressible(jnp.asarray(u), indexing="xy"))
+        pl = np.asarray(ex.ifft(P(ex.fft(jnp.asarray(u))), num_spatial_dims=D, num_points=N))
+        div = np.sum(np.asarray(dop) * np.asarray(ex.fft(jnp.asarray(pm))), axis=0)
+        key = {"kind": "projector", "D": D, "N": N, "indexing": "xy"}
+        if maxabs(pm - pl) > 1e-11 * (1 + maxabs(u)):
+            run.violation(dict(key, what="make_incompressible(indexing=xy) disagrees with Leray on the xy operator"), {"err": maxabs(pm - pl)})
+        if maxabs(div) > 1e-10 * (1 + maxabs(u)) * float(N) ** D * (2 * np.pi / L) * N:
+            run.violation(dict(key, what="make_incompressible(indexing=xy): divergence not removed"), {})
     # the 3D rotational term is divergence-free for every input (dense white noise, Nyquist content included)
     for N in (6, 7, 8):
         L = 2.9
@@ -64,7 +80,10 @@ def check_rollouts(run, ex, jnp, rng, tier):
             for order in (1, 2, 3, 4):
                 L, dt = 2 * np.pi, 0.02
                 kw = dict(injection_mode=1 if N < 8 else 2) if name.startswith("Kolmogorov") else {}
-                for extra in ({}, dict(drag=-0.2, diffusivity=0.05)):
+                # (default) / drag and larger viscosity / the legal extreme dealiasing_fraction = 1 (the cutoff N//2 - 1 still removes the Nyquist mode)
+                for extra in ({}, dict(drag=-0.2, diffusivity=0.05), dict(dealiasing_fraction=1.0)):
+                    if "dealiasing_fraction" in extra and order not in (2, 4):
+                        continue
                     st = registry.make(name, 3, N, L=L, dt=dt, order=order, **kw, **extra)
                     u = np.asarray(ex.spectral.make_incompressible(jnp.asarray(zoo.nyquist_free(ex, jnp, zoo.white_noise(rng, 3, 3, N, amp=0.5)))))
                     u = jnp.asarray(u)
